@@ -293,10 +293,26 @@ def count_events(ctx, out):
                         NEV["one_byte_100ms"] += 1
 
 
-def judge(ctx, runs, what):
+def confirm(ctx, exe, script_text, tag, env=None):
+    """R4: a rejection is re-run once, alone, before it is reported; returns True when it repeats"""
+    ip = ctx.path("confirm_%s.txt" % tag)
+    with open(ip, "w") as f:
+        f.write(script_text)
+    out = ctx.path("confirm_%s.ndjson" % tag)
+    rc, err = vf.run_hx(exe, ["c02"], out, stdin_path=ip, timeout=1200, env=env)
+    if rc != 0:
+        return True
+    acc, rej, r = vseq(ctx, out, "confirm " + tag)
+    return not acc
+
+
+def judge(ctx, runs, what, exe=None):
     good = []
     for k, ip, out, rc, err in runs:
         if rc != 0:
+            rc2, err2 = vf.run_hx(exe, ["c02"], ctx.path("again_%s_%02d.ndjson" % (what.replace(" ", "_"), k)), stdin_path=ip, timeout=3000) if exe else (rc, err)
+            if rc2 == 0:
+                raise vf.Infra("hx_link aborted rc=%d on %s (%s) but not when run again: %s" % (rc, ip, what, err[-800:]))
             ctx.violation("hx_link aborted rc=%d on %s (%s): %s" % (rc, os.path.basename(ip), what, err[-1500:]), replay_src=ip)
         else:
             good.append((k, ip, out))
@@ -325,6 +341,8 @@ def judge(ctx, runs, what):
             rp = ctx.path("rej_%s_%02d_%d.txt" % (what.replace(" ", "_"), k, base + x))
             with open(rp, "w") as f:
                 f.write(script_exec(ip, base + x))
+            if exe and not confirm(ctx, exe, script_exec(ip, base + x), "%s_%02d_%d" % (what.replace(" ", "_"), k, base + x)):
+                raise vf.Infra("rejection did not repeat when the execution was run again alone (%s, %s): %s" % (what, rp, (why[-1] if why else "")[:300]))
             e = {}
             try:
                 e = json.loads(ev); e["h"] = e.get("h", [])[:12]
@@ -349,6 +367,7 @@ def run(ctx):
         return replay(ctx)
     # 1. the design
     mcs = [("Link_mc_hs.cfg", None, "redundancy handshake"), ("Link_mc_hs_bug17.cfg", "RedundancySignalAgrees", "handshake witness: reserve 17 instead of 37"),
+           ("Link_mc_hs_dirzero.cfg", "RedundancySignalAgrees", "handshake corner: direction bit that costs no whole bit (assumption made explicit)"),
            ("Link_mc_hs_w1.cfg", "SomeRedSilk", "vacuity guard SomeRedSilk"), ("Link_mc_hs_w2.cfg", "SomeRedHybrid", "vacuity guard SomeRedHybrid"),
            ("Link_mc_pk.cfg", None, "packet envelope x decoders"), ("Link_mc_pk_w.cfg", "SomeBigEnvelope", "vacuity guard SomeBigEnvelope"),
            ("Link_mc_c02_%s.cfg" % tier, None, "histories of control changes and encodes")]
@@ -361,7 +380,7 @@ def run(ctx):
         if r.error:
             raise vf.Infra("%s: %s" % (what, r.error))
         ctx.add_tlc(r, "mc Link_mc/" + cfg)
-        vf.log("[mc] %-52s distinct=%d generated=%d %s (%.1fs)" % (what, r.distinct, r.generated, "OK" if r.ok else "VIOLATED " + str(r.violation), r.wall))
+        vf.log("[mc] %-60s distinct=%d generated=%d %s (%.1fs)" % (what, r.distinct, r.generated, "OK" if r.ok else "VIOLATED " + str(r.violation), r.wall))
         if r.violation != expect:
             raise vf.Infra("Link model: %s: expected %s, got %s\n%s" % (what, expect, r.violation, r.state_dump[:1500]))
     ctx.exhaustive = False
@@ -370,19 +389,19 @@ def run(ctx):
     ctx.notes["executions_planned"] = dict(single=len(ex), multistream=len(ms))
     var = vf.build_variant("hko")
     exe = vf.build_hx(var, "link.c")
-    judge(ctx, run_scripts(ctx, exe, ex, "c02"), "encoder")
-    judge(ctx, run_scripts(ctx, exe, ms, "c02ms"), "multistream")
+    judge(ctx, run_scripts(ctx, exe, ex, "c02"), "encoder", exe)
+    judge(ctx, run_scripts(ctx, exe, ms, "c02ms"), "multistream", exe)
     # a slice under the sanitizer build (assertions, ASan/UBSan)
     rng = random.Random(ctx.seed + 2)
     var2 = vf.build_variant("hk")
     exe2 = vf.build_hx(var2, "link.c")
     sl = rng.sample(ex, min(len(ex), 60 if tier == "quick" else 600)) + rng.sample(ms, min(len(ms), 6 if tier == "quick" else 40))
-    judge(ctx, run_scripts(ctx, exe2, sl, "c02san"), "sanitizer build")
+    judge(ctx, run_scripts(ctx, exe2, sl, "c02san"), "sanitizer build", exe2)
     if tier == "thorough":
         var3 = vf.build_variant("fuzzing")
         exe3 = vf.build_hx(var3, "link.c", extra=["-DFUZZING"])
         sl = rng.sample(ex, min(len(ex), 1500)) + rng.sample(ms, min(len(ms), 40))
-        judge(ctx, run_scripts(ctx, exe3, sl, "c02fuzz"), "fuzzing build")
+        judge(ctx, run_scripts(ctx, exe3, sl, "c02fuzz"), "fuzzing build", exe3)
     ctx.traces = NEV["executions"]
     ctx.evaluations = NEV["encodes"] + NEV["decodes"]
     ctx.notes["events"] = dict(NEV)
